@@ -277,6 +277,23 @@ func slowWriterRun(e *concEnv) string {
 			return bundle.Reduce(b, func(acc string, t bundle.Token) string { return acc + "," + t.String() })
 		}},
 		{"IsEmpty", func(b *bundle.Bundle) string { return fmt.Sprint(b.IsEmpty()) }},
+		{"Any", func(b *bundle.Bundle) string {
+			return fmt.Sprint(b.Any(bundle.Predicate(func(t bundle.Token) bool { return strings.Contains(t.String(), "fo1_drop2") })))
+		}},
+		{"Any.filter", func(b *bundle.Bundle) string { return fmt.Sprint(b.Any(bundle.LocationFilter(concLoc))) }},
+		{"Count.predicate", func(b *bundle.Bundle) string {
+			return fmt.Sprint(b.Count(bundle.Predicate(func(t bundle.Token) bool { return strings.Contains(t.String(), "fo1_") })))
+		}},
+		{"Error", func(b *bundle.Bundle) string { return fmt.Sprint(b.Error()) }},
+		{"Validate", func(b *bundle.Bundle) string {
+			return fmt.Sprint(b.Validate(&flyio.Access{OrgID: p64(1), Action: resset.ActionRead}) == nil)
+		}},
+		{"UndischargedThirdPartyTickets", func(b *bundle.Bundle) string { return fmt.Sprint(len(b.UndischargedThirdPartyTickets())) }},
+		{"ForEach", func(b *bundle.Bundle) string {
+			var sb strings.Builder
+			bundle.ForEach(b, func(t bundle.Token) { sb.WriteString(t.String() + ",") })
+			return sb.String()
+		}},
 		{"AddTokens", func(b *bundle.Bundle) string { b.AddTokens("fo1_added"); return "" }},
 	}
 	for _, sc := range seconds {
@@ -342,7 +359,24 @@ func slowWriterRun(e *concEnv) string {
 				res <- "second-done"
 			}()
 			time.Sleep(15 * time.Millisecond)
+			// mutual exclusion: the Filter still holds the write lock, so the second call - on the bundle or on a
+			// selection sharing its guard - cannot have come back yet (a result with a wrong value or a panic is
+			// reported as such below; a RIGHT-looking early answer was still computed inside the writer's section)
+			early := ""
+			select {
+			case r := <-res:
+				if r == "second-done" {
+					early = fmt.Sprintf("wrong-answer(%s returned while Filter held the write lock, derived=%v: not excluded)", sc.name, derived)
+				} else {
+					early = r
+				}
+			default:
+			}
 			close(release)
+			if early != "" {
+				<-res // the filter itself
+				return early
+			}
 			for k := 0; k < 2; k++ {
 				select {
 				case r := <-res:
